@@ -383,11 +383,20 @@ EXTRA_TEXT = {
         "contracts updated or destroyed, balances incl. notary deposits); PoolLifeImpl follows verifyAndPoolTx / mempool.Add / RemoveStale / "
         "IsTxStillRelevant, TLC checks Impl => Proposable on four universes and refutes seven named deviations; after EVERY block of TLC behaviours "
         "and seeded lives the consensus-style proposal of a real proposer is judged by an independent replica and by TLC (PoolLifeTrace).",
+ "C08": " Extension notarysvc (spec/notarysvc, harness/c08notarysvc): the notary SERVICE above the request pool. NotarySvcImpl models the request map "
+        "(isSent, minNotValidBefore, per-witness signatures left, first-copy rule), verifyIncompleteWitnesses, the newTxs channel + finalize (check / callback / "
+        "bookkeeping as separate steps), PostPersist, UpdateNotaryNodes, restart and the real notification race (block vs. last removal); 10 named deviations are "
+        "refuted by TLC (11.1M states in the thorough tier). The abstract level has two parts: part 1 is JUDGED (AdmitSound, PoolNoConflict, PoolSolvent, Proposable, "
+        "OneOutcome - what C07 / C08 literally demand on the path service -> memory pool -> block); part 2 (service intent: complete, verified, designated-key, "
+        "not-early sends, NKeys, order independence via twin histories, withdrawal, progress at rest) is reported as 'beyond:' observations (drift + counters), never as "
+        "violations. The real notary.Notary with its goroutines runs on a real chain + real request pool; the driver steps only when the service is at rest (rendezvous "
+        "with the two event dispatchers + goroutine states, bounded, no sleeps); every send is examined in onTransaction with the real ledger and pooled; blocks are "
+        "made from the memory pool in wire form; TLC behaviours + seeded random histories + twins + 7 scripted worlds; the NDJSON trace is judged by TLC.",
  "C09": " Later additions: point reads through the same DAO while dao.SeekAsync / System.Storage.Find iterate; contracts with 6-12 items that reach "
         "the backend before they are iterated through a private DAO (lazy lower scan meets the iterating contract's own reads).",
  "C10": " Later addition: deep-trie histories (one spine key of 36-68 bytes with a key leaving it at almost every half-byte: proofs of up to "
         "2*MaxKeyLength+1 nodes), filled by batches, proved, collapsed, reloaded and edited.",
- "C18": " Extension codec (spec/numcodec, harness/c18codec): fixed-point decimals (any precision incl. above the 10^16 table), Fixed8, Uint160/256 "
+ "C18a": " Extension codec (spec/numcodec, harness/c18codec): fixed-point decimals (any precision incl. above the 10^16 table), Fixed8, Uint160/256 "
         "byte and string forms and their order, Base58Check and addresses: Decimal.tla / UintN.tla / Base58.tla are the oracle (11 781 enumerated cases "
         "quick, 20 643 thorough, executed forward and in reverse), the codecs are specified as PURE functions (CodecHistory refined by CodecHistoryImpl "
         "with decimal.go's power table as memo; eight named deviations refuted) and TLC-generated call histories are replayed each in one fresh process; "
@@ -440,7 +449,7 @@ def main():
         i = p["id"]
         if i in CHECKS:
             cat, text, ref, note, tech = CHECKS[i]
-            text += EXTRA_TEXT.get(i, "")
+            text += EXTRA_TEXT.get(i + "a", "") + EXTRA_TEXT.get(i, "")
             checks.append({
                 "property_id": i,
                 "quick_cmd": "tools/vcheck %s --tier quick" % i,
